@@ -329,6 +329,167 @@ pub enum ZzLegacyUnionR {
     OnlyViaUnion(OnlyViaUnion),
 }
 
+// -- nested interface chains: an interface is a variant of the next outer one; the objects are registered only
+// under the innermost interface of their branch.
+
+pub struct ChainLeaf;
+
+/// Registered under `Lvl4` only.
+#[Object]
+impl ChainLeaf {
+    async fn rank(&self) -> i32 {
+        0
+    }
+    async fn two(&self) -> i32 {
+        0
+    }
+    async fn three(&self) -> i32 {
+        0
+    }
+    async fn four(&self) -> i32 {
+        0
+    }
+    async fn own(&self) -> Option<String> {
+        None
+    }
+}
+
+pub struct MidLeaf;
+
+/// Registered under `Lvl2` only.
+#[Object]
+impl MidLeaf {
+    async fn rank(&self) -> i32 {
+        0
+    }
+    async fn two(&self) -> i32 {
+        0
+    }
+}
+
+#[derive(Interface)]
+#[graphql(
+    field(name = "rank", ty = "i32"),
+    field(name = "two", ty = "i32"),
+    field(name = "three", ty = "i32"),
+    field(name = "four", ty = "i32")
+)]
+pub enum Lvl4 {
+    ChainLeaf(ChainLeaf),
+}
+
+#[derive(Interface)]
+#[graphql(field(name = "rank", ty = "i32"), field(name = "two", ty = "i32"), field(name = "three", ty = "i32"))]
+pub enum Lvl3 {
+    Lvl4(Lvl4),
+}
+
+#[derive(Interface)]
+#[graphql(field(name = "rank", ty = "i32"), field(name = "two", ty = "i32"))]
+pub enum Lvl2 {
+    Lvl3(Lvl3),
+    MidLeaf(MidLeaf),
+}
+
+/// Outermost of four nested interfaces
+#[derive(Interface)]
+#[graphql(field(name = "rank", ty = "i32"))]
+pub enum Lvl1 {
+    Lvl2(Lvl2),
+}
+
+// a chain whose middle interface is hidden unless the request is internal
+
+pub struct HopLeaf;
+
+#[Object]
+impl HopLeaf {
+    async fn hops(&self) -> i32 {
+        0
+    }
+    async fn leaf_only(&self) -> i32 {
+        0
+    }
+}
+
+pub struct HopSide;
+
+/// Registered directly under the interface that can be hidden.
+#[Object]
+impl HopSide {
+    async fn hops(&self) -> i32 {
+        0
+    }
+}
+
+#[derive(Interface)]
+#[graphql(field(name = "hops", ty = "i32"))]
+pub enum Hop3 {
+    HopLeaf(HopLeaf),
+}
+
+#[derive(Interface)]
+#[graphql(visible = "is_internal", field(name = "hops", ty = "i32"))]
+pub enum ZzInternalHop2 {
+    Hop3(Hop3),
+    HopSide(HopSide),
+}
+
+#[derive(Interface)]
+#[graphql(field(name = "hops", ty = "i32"))]
+pub enum Hop1 {
+    ZzInternalHop2(ZzInternalHop2),
+}
+
+// a chain whose middle interface is never visible
+
+#[derive(SimpleObject)]
+pub struct FarLeaf {
+    far: i32,
+}
+
+#[derive(Interface)]
+#[graphql(visible = false, field(name = "far", ty = "&i32"))]
+pub enum ZzNeverFar2 {
+    FarLeaf(FarLeaf),
+}
+
+#[derive(Interface)]
+#[graphql(field(name = "far", ty = "&i32"))]
+pub enum Far1 {
+    ZzNeverFar2(ZzNeverFar2),
+}
+
+// -- custom directives
+
+pub struct NoEffect;
+
+impl CustomDirective for NoEffect {}
+
+/// Repeat the value
+#[Directive(location = "Field")]
+pub fn shout(#[graphql(default = 1)] times: i32) -> impl CustomDirective {
+    let _ = times;
+    NoEffect
+}
+
+#[Directive(location = "Field")]
+pub fn whisper(#[graphql(visible = "is_admin")] zz_admin_hush: Option<bool>, low: Option<i32>) -> impl CustomDirective {
+    let _ = (zz_admin_hush, low);
+    NoEffect
+}
+
+#[Directive(location = "Field", visible = false)]
+pub fn zz_never_mark() -> impl CustomDirective {
+    NoEffect
+}
+
+#[Directive(location = "Field", visible = "is_beta")]
+pub fn zz_beta_mark(level: Option<i32>) -> impl CustomDirective {
+    let _ = level;
+    NoEffect
+}
+
 pub struct Query;
 
 /// The root
@@ -390,6 +551,24 @@ impl Query {
     async fn zz_legacy_union_field(&self) -> Vec<ZzLegacyUnionR> {
         vec![]
     }
+    async fn chain_top(&self) -> Option<Lvl1> {
+        None
+    }
+    async fn hop1(&self) -> Option<Hop1> {
+        None
+    }
+    async fn hop_leaf(&self) -> Option<HopLeaf> {
+        None
+    }
+    async fn hop_side(&self) -> Option<HopSide> {
+        None
+    }
+    async fn far1(&self) -> Option<Far1> {
+        None
+    }
+    async fn far_leaf(&self) -> Option<FarLeaf> {
+        None
+    }
 }
 
 pub struct ZzAdminMutation;
@@ -418,13 +597,19 @@ impl ZzBetaSubscription {
 
 pub type V1Schema = Schema<Query, ZzAdminMutation, ZzBetaSubscription>;
 
-pub fn schema() -> V1Schema {
-    Schema::build(Query, ZzAdminMutation, ZzBetaSubscription)
+/// `directive_visibility`: register the custom directives that carry a visibility rule (on themselves or on an
+/// argument) as well.
+pub fn schema(directive_visibility: bool) -> V1Schema {
+    let mut b = Schema::build(Query, ZzAdminMutation, ZzBetaSubscription)
         .register_output_type::<Tagged>()
         .register_output_type::<Yonder>()
         .register_output_type::<Node>()
         .register_output_type::<ZzInternalIface>()
-        .finish()
+        .directive(shout);
+    if directive_visibility {
+        b = b.directive(whisper).directive(zz_never_mark).directive(zz_beta_mark);
+    }
+    b.finish()
 }
 
 // ---------------------------------------------------------------- the hand model
@@ -450,11 +635,21 @@ pub fn p_never(_: Flags) -> bool {
     false
 }
 
+/// A custom directive definition of the source: its name and argument names.
+#[derive(Clone, Debug, PartialEq)]
+pub struct VDir {
+    pub name: String,
+    pub args: Vec<String>,
+}
+
 /// A model whose elements may carry a visibility predicate. Paths: type `T`;
-/// field, enum value or input field `T.x`; argument `T.f(a)`.
+/// field, enum value or input field `T.x`; argument `T.f(a)`; custom directive
+/// `@d`; directive argument `@d(a)`.
 pub struct Vm {
     pub full: IModel,
     pub vis: BTreeMap<String, Pred>,
+    /// custom directive definitions registered on the schema
+    pub dirs: Vec<VDir>,
 }
 
 pub fn fld(name: &str, ty: &str) -> IField {
@@ -506,7 +701,7 @@ pub fn names(xs: &[&str]) -> Vec<String> {
     xs.iter().map(|s| s.to_string()).collect()
 }
 
-pub fn hand_model() -> Vm {
+pub fn hand_model(directive_visibility: bool) -> Vm {
     let mut m = with_builtins("Query");
     m.mutation = Some("ZzAdminMutation".into());
     m.subscription = Some("ZzBetaSubscription".into());
@@ -657,6 +852,57 @@ pub fn hand_model() -> Vm {
     ty("ZzInternalIface", None, IKind::Interface { fields: vec![fld("z", "Int!")], implements: vec![] });
     v("ZzInternalIface", p_internal);
 
+    // nested interface chains. What the source declares: an interface that is a variant of another interface
+    // implements it, so everything below implements every interface above it; nothing is re-declared.
+    let ints = |ns: &[&str]| -> Vec<IField> { ns.iter().map(|n| fld(n, "Int!")).collect() };
+    ty(
+        "ChainLeaf",
+        Some("Registered under `Lvl4` only."),
+        IKind::Object {
+            fields: {
+                let mut f = ints(&["rank", "two", "three", "four"]);
+                f.push(fld("own", "String"));
+                f
+            },
+            implements: names(&["Lvl4", "Lvl3", "Lvl2", "Lvl1"]),
+        },
+    );
+    ty(
+        "MidLeaf",
+        Some("Registered under `Lvl2` only."),
+        IKind::Object { fields: ints(&["rank", "two"]), implements: names(&["Lvl2", "Lvl1"]) },
+    );
+    ty(
+        "Lvl4",
+        None,
+        IKind::Interface { fields: ints(&["rank", "two", "three", "four"]), implements: names(&["Lvl3", "Lvl2", "Lvl1"]) },
+    );
+    ty("Lvl3", None, IKind::Interface { fields: ints(&["rank", "two", "three"]), implements: names(&["Lvl2", "Lvl1"]) });
+    ty("Lvl2", None, IKind::Interface { fields: ints(&["rank", "two"]), implements: names(&["Lvl1"]) });
+    ty(
+        "Lvl1",
+        Some("Outermost of four nested interfaces"),
+        IKind::Interface { fields: ints(&["rank"]), implements: vec![] },
+    );
+    ty(
+        "HopLeaf",
+        None,
+        IKind::Object { fields: ints(&["hops", "leafOnly"]), implements: names(&["Hop3", "ZzInternalHop2", "Hop1"]) },
+    );
+    ty(
+        "HopSide",
+        Some("Registered directly under the interface that can be hidden."),
+        IKind::Object { fields: ints(&["hops"]), implements: names(&["ZzInternalHop2", "Hop1"]) },
+    );
+    ty("Hop3", None, IKind::Interface { fields: ints(&["hops"]), implements: names(&["ZzInternalHop2", "Hop1"]) });
+    ty("ZzInternalHop2", None, IKind::Interface { fields: ints(&["hops"]), implements: names(&["Hop1"]) });
+    v("ZzInternalHop2", p_internal);
+    ty("Hop1", None, IKind::Interface { fields: ints(&["hops"]), implements: vec![] });
+    ty("FarLeaf", None, IKind::Object { fields: ints(&["far"]), implements: names(&["ZzNeverFar2", "Far1"]) });
+    ty("ZzNeverFar2", None, IKind::Interface { fields: ints(&["far"]), implements: names(&["Far1"]) });
+    v("ZzNeverFar2", p_never);
+    ty("Far1", None, IKind::Interface { fields: ints(&["far"]), implements: vec![] });
+
     ty("SearchResult", None, IKind::Union { members: names(&["User", "ZzBetaObjC", "ZzNeverNodeC", "OnlyViaUnion"]) });
     ty("ZzLegacyUnionR", None, IKind::Union { members: names(&["User", "OnlyViaUnion"]) });
     v("ZzLegacyUnionR", p_legacy);
@@ -683,6 +929,12 @@ pub fn hand_model() -> Vm {
                 fld("zzInternalIfaceField", "ZzInternalIface"),
                 fld("zzInternalScalarField", "ZzInternalScalarL").args(vec![arg("s", "ZzInternalScalarL")]),
                 fld("zzLegacyUnionField", "[ZzLegacyUnionR!]!"),
+                fld("chainTop", "Lvl1"),
+                fld("hop1", "Hop1"),
+                fld("hopLeaf", "HopLeaf"),
+                fld("hopSide", "HopSide"),
+                fld("far1", "Far1"),
+                fld("farLeaf", "FarLeaf"),
             ],
             implements: vec![],
         },
@@ -719,7 +971,18 @@ pub fn hand_model() -> Vm {
     v("ZzBetaSubscription", p_beta);
     v("ZzBetaSubscription.zzInternalTicks", p_internal);
 
-    Vm { full: m, vis }
+    // custom directives (`Schema::directive`)
+    let mut dirs = vec![VDir { name: "shout".into(), args: names(&["times"]) }];
+    if directive_visibility {
+        dirs.push(VDir { name: "whisper".into(), args: names(&["zzAdminHush", "low"]) });
+        v("@whisper(zzAdminHush)", p_admin);
+        dirs.push(VDir { name: "zz_never_mark".into(), args: vec![] });
+        v("@zz_never_mark", p_never);
+        dirs.push(VDir { name: "zz_beta_mark".into(), args: names(&["level"]) });
+        v("@zz_beta_mark", p_beta);
+    }
+
+    Vm { full: m, vis, dirs }
 }
 
 /// What introspection must show under `f`.
@@ -735,6 +998,8 @@ pub struct Expected {
     pub hidden: BTreeSet<String>,
     /// names containing `zz` that are visible in this context
     pub visible_sentinels: BTreeSet<String>,
+    /// custom directives visible in this context, each with its visible argument names
+    pub directives: BTreeMap<String, BTreeSet<String>>,
 }
 
 fn has_zz(s: &str) -> bool {
@@ -794,6 +1059,12 @@ impl Vm {
                     }
                 }
                 _ => {}
+            }
+        }
+        for d in &self.dirs {
+            chk(format!("@{}", d.name), &d.name, vec![])?;
+            for a in &d.args {
+                chk(format!("@{}({a})", d.name), a, vec![])?;
             }
         }
         for p in self.vis.keys() {
@@ -888,6 +1159,23 @@ impl Vm {
                 filtered.add(IType { name: t.name.clone(), desc: t.desc.clone(), kind });
             }
         }
+        let mut directives: BTreeMap<String, BTreeSet<String>> = BTreeMap::new();
+        for d in &self.dirs {
+            let d_on = self.on(&format!("@{}", d.name), f);
+            note(d_on, &d.name);
+            if !d_on {
+                continue;
+            }
+            let mut shown = BTreeSet::new();
+            for a in &d.args {
+                let a_on = self.on(&format!("@{}({a})", d.name), f);
+                note(a_on, a);
+                if a_on {
+                    shown.insert(a.clone());
+                }
+            }
+            directives.insert(d.name.clone(), shown);
+        }
         // a name hidden in one place and visible in another is not a sentinel for this context
         let hidden: BTreeSet<String> = hidden.into_iter().filter(|h| !visible_sentinels.contains(h)).collect();
         // visible elements of hidden types
@@ -942,7 +1230,7 @@ impl Vm {
         }
         // objects that are listed drop interfaces / unions drop members that are not (they are all reachable
         // through the object / union itself, so nothing to drop: asserted by `dangling`)
-        Expected { model, optional, optional_paths, hidden, visible_sentinels }
+        Expected { model, optional, optional_paths, hidden, visible_sentinels, directives }
     }
 }
 
